@@ -183,6 +183,8 @@ class Evaluator:
                     return ("int", f(l[1], r[1]))
                 if l[0] == "bool" and r[0] == "bool" and op in ("BitAnd", "BitOr", "BitXor"):
                     return ("bool", {"BitAnd": l[1] and r[1], "BitOr": l[1] or r[1], "BitXor": l[1] != r[1]}[op])
+                if l[0] in ("sym", "bin", "int") and r[0] in ("sym", "bin", "int"):
+                    return ("bin", op, l, r)        # a symbolic term
                 raise Unrecognised(f"arithmetic on {l} and {r}")
             raise Unrecognised(f"operator {op}")
         if k == "if":
